@@ -419,6 +419,10 @@ class QueryScheduler:
                 <= refresh_time_millis - current.when_millis
                 <= self._min_time_between_queries_millis
             ):
+                # The scheduled query is kept, the later rescue queries
+                # must follow the TTL and expire time of the new record
+                current.ttl = int(pointer.ttl) if isinstance(pointer.ttl, float) else pointer.ttl
+                current.expire_time_millis = pointer.get_expiration_time(100)
                 return
             current.cancelled = True
             del self._next_scheduled_for_alias[pointer.alias_key]
